@@ -98,6 +98,28 @@ def replay_pair(arg):
                     mism.append(("compose-two-steps", "composition differs from two steps", rep))
         except Exception as ex:
             mism.append(("raised", "raised %r" % (ex,), rep))
+    # the arrays handed to the constructors are the caller's scratch buffers: once built, a transform is what its matrix says, whatever
+    # the caller writes into those buffers afterwards
+    try:
+        from perception_eval.common.transform import HomogeneousMatrix
+
+        t_buf = np.array(A["t"], dtype=float)
+        m_buf = np.eye(4)
+        m_buf[:3, :3] = np.array(A["R"], float)
+        m_buf[:3, 3] = t_buf
+        M1 = HomogeneousMatrix(t_buf, Quaternion(matrix=np.array(A["R"], float)), src=A["src"], dst=A["dst"])
+        M2 = HomogeneousMatrix.from_matrix(m_buf, A["src"], A["dst"])
+        p = np.array(pose["p"], float)
+        before = [np.array(M.transform(tuple(p))) for M in (M1, M2)] + [M.inv().matrix.copy() for M in (M1, M2)]
+        t_buf += 100.0
+        m_buf[:3, 3] -= 55.0
+        after = [np.array(M.transform(tuple(p))) for M in (M1, M2)] + [M.inv().matrix.copy() for M in (M1, M2)]
+        mat_ok = all(np.allclose(M.matrix[:3, 3], np.array(A["t"], float), atol=1e-9) for M in (M1, M2))
+        if not mat_ok or any(not np.allclose(x, y, atol=1e-9) for x, y in zip(before, after)):
+            mism.append(("depends-on-callers-buffer", "after the caller reused its translation / matrix buffer, transform(p) or inv() of the built transform changed",
+                         {"A": A, "pose": pose}))
+    except Exception as ex:
+        mism.append(("raised", "buffer-reuse check raised %r" % (ex,), {"A": A}))
     return n, mism
 
 
